@@ -22,21 +22,31 @@ VARIABLES stack,      \* Money's converter stack (registration order)
           withs,      \* entered and not yet left with-blocks, innermost last
           gen,        \* converter list of the generic type (registration order, no duplicates)
           probe,      \* observable: rate used by Money(1 B).convert(X), 0 = UnitConversionError
-          gprobe,     \* observable: factor used by G(1 g1).convert(g2), 0 = UnitConversionError
+          gprobe,     \* observable: G(2 g1).convert(g2), 0 = UnitConversionError
+          xprobe,     \* observable: the cross rate Money(1 X).convert(Y) in hundredths (neither is the base currency)
+          gzero,      \* observable: G(1 g1).convert(g2) - the most recent converter answers 0 there; -1 = UnitConversionError
           out,        \* outcome of the last step
           marks,      \* history: length of the stack when each open block was entered
           base,       \* history: the stack when the outermost open block was entered
           disc        \* history: "disciplined" - since the outermost block was entered nothing registered
                       \* before a block was removed inside it, and no leave failed
-vars == <<stack, withs, gen, probe, gprobe, out, marks, base, disc>>
+vars == <<stack, withs, gen, probe, gprobe, xprobe, gzero, out, marks, base, disc>>
 hist == <<marks, base, disc>>
 
 \* c4 holds no rate for the probed pair: while it is the most recent one the conversion fails (0), whatever
 \* older converters know
 RateOf(c) == CASE c = "c1" -> 2 [] c = "c2" -> 4 [] c = "c3" -> 5 [] c = "c4" -> 0
-\* generic callables: f1 converts g1->g2 by 2; f2 declines everything (returns None);
-\* f3 converts g1->g2 by 3, f4 by 5
-GenFactor(f) == CASE f = "f1" -> 2 [] f = "f2" -> 0 [] f = "f3" -> 3 [] f = "f4" -> 5
+\* generic callables (amount a in g1 -> g2): f1 answers 2a - 2 (zero at a = 1 - an answer like any other),
+\* f2 declines everything (returns None), f3 answers 3a, f4 answers 5a.  GenFactor: the answer at a = 2.
+GenFactor(f) == CASE f = "f1" -> 2 [] f = "f2" -> 0 [] f = "f3" -> 6 [] f = "f4" -> 10
+GenAtOne(f)  == CASE f = "f1" -> 0 [] f = "f2" -> -1 [] f = "f3" -> 3 [] f = "f4" -> 5
+\* cross rates Y per X in hundredths: c1 X=2 Y=3, c2 X=4 Y=5, c3 X=5 Y=2, c4 has no X rate
+XRateOf(c) == CASE c = "c1" -> 150 [] c = "c2" -> 125 [] c = "c3" -> 40 [] c = "c4" -> 0
+XProbeOf(s) == IF s = <<>> THEN 0 ELSE XRateOf(s[Len(s)])
+RECURSIVE GZeroOf(_)
+GZeroOf(g) == IF g = <<>> THEN -1
+              ELSE IF GenAtOne(g[Len(g)]) # -1 THEN GenAtOne(g[Len(g)])
+              ELSE GZeroOf(SubSeq(g, 1, Len(g) - 1))
 ProbeOf(s) == IF s = <<>> THEN 0 ELSE RateOf(s[Len(s)])
 RECURSIVE GProbeOf(_)
 GProbeOf(g) == IF g = <<>> THEN 0
@@ -45,9 +55,9 @@ GProbeOf(g) == IF g = <<>> THEN 0
 Out(a, c, ok) == [act |-> a, c |-> c, ok |-> ok]
 Pop(s) == SubSeq(s, 1, Len(s) - 1)
 Has(s, x) == \E k \in DOMAIN s : s[k] = x
-Obs == /\ probe' = ProbeOf(stack') /\ gprobe' = GProbeOf(gen')
+Obs == /\ probe' = ProbeOf(stack') /\ gprobe' = GProbeOf(gen') /\ xprobe' = XProbeOf(stack') /\ gzero' = GZeroOf(gen')
 
-Init == stack = <<>> /\ withs = <<>> /\ gen = <<>> /\ probe = 0 /\ gprobe = 0 /\ out = Out("init", "", TRUE)
+Init == stack = <<>> /\ withs = <<>> /\ gen = <<>> /\ probe = 0 /\ gprobe = 0 /\ xprobe = 0 /\ gzero = -1 /\ out = Out("init", "", TRUE)
         /\ marks = <<>> /\ base = <<>> /\ disc = TRUE
 
 Register(c) == /\ Len(stack) < MaxDepth
@@ -93,7 +103,7 @@ Bound == TLCGet("level") <= MaxSteps + 1
 Spec == Init /\ [][Next]_vars
 
 (* ---- properties ------------------------------------------------------- *)
-TopWins == probe = ProbeOf(stack) /\ gprobe = GProbeOf(gen)
+TopWins == probe = ProbeOf(stack) /\ gprobe = GProbeOf(gen) /\ xprobe = XProbeOf(stack) /\ gzero = GZeroOf(gen)
 WithsRegistered == Len(withs) <= Len(stack) \/ \E k \in DOMAIN withs : TRUE
 RejectedChangesNothing == [][~out'.ok => (stack' = stack /\ gen' = gen)]_vars
 \* LIFO: a successful unregister / leave removes exactly the most recent registration
